@@ -512,4 +512,85 @@ def Val.spec : Val → Option VCall
   | .dyn v => v.spec
   | .formatted fmt v => v.plain.bind (Fmt.spec fmt)
 
+/-! ### Stream / format adapters as long-lived objects
+
+`MergeGlobals`, `MergeGlobalDimensions` and the `ForceFlag` stream are values that live as long as the
+sink: `next(&mut self, entry)` / `format(&mut self, entry, out)` is called once per entry on the SAME
+instance.  Here the instance's fields are explicit state: every call returns the fields as they are
+when the call returns, whatever the stream below answered. -/
+
+/-- `Result<(), IoStreamError>` of the stream / format below -/
+inductive IoRes where
+  | ok
+  | validation
+  | io
+  deriving Repr, DecidableEq
+
+/-- The recording stream at the bottom: remembers what every entry it was given wrote, and answers
+from a script (then `Ok`). -/
+structure RecStream where
+  seen : List (Log × Dims)
+  script : List IoRes
+  deriving Repr
+
+def RecStream.next (r : RecStream) (e : Ent) : RecStream × IoRes :=
+  ({ seen := r.seen ++ [(e.log, e.sampleGroup)], script := r.script.tail }, r.script.headD .ok)
+
+/-- One adapter layer: its fields (`globals` / `global_dimensions`, `global_dimensions_denylist` / the
+flag type). -/
+inductive Adapter where
+  | mergeGlobals (globals : Ent)
+  | globalDims (dims : Dims) (deny : List Str)
+  | forceFlag (f : Mode)
+  deriving Repr
+
+/-- `next` / `format` of one layer over the stream `below` (stream.rs:190-228, format.rs:271-299,
+force.rs:176): returns the layer's fields after the call, what `below` returned as its new state, and
+the result, which is passed up unchanged.  `MergeGlobalDimensions` CLONES its dimensions and deny list
+into the per-entry `WithGlobalDimensions`; its own fields are untouched on every path. -/
+def Adapter.call {β : Type} (a : Adapter) (e : Ent) (below : Ent → β × IoRes) : Adapter × β × IoRes :=
+  match a with
+  | .mergeGlobals g =>
+    let (b, res) := below (.mergedRef g e)
+    (.mergeGlobals g, b, res)
+  | .globalDims d deny =>
+    if d.isEmpty then
+      let (b, res) := below (.ref (.ref e))
+      (.globalDims d deny, b, res)
+    else
+      let (b, res) := below (.globalDims (.ref e) d deny)
+      (.globalDims d deny, b, res)
+  | .forceFlag f =>
+    let (b, res) := below (.forceFlag (.ref e) f)
+    (.forceFlag f, b, res)
+
+/-- A stack of adapters (outermost first) over the recording stream: one `next` call. -/
+def stackNext : List Adapter → RecStream → Ent → List Adapter × RecStream × IoRes
+  | [], r, e =>
+    let (r', res) := r.next e
+    ([], r', res)
+  | a :: rest, r, e =>
+    let (a', (rest', r'), res) := a.call e (fun e' =>
+      let (x, y, z) := stackNext rest r e'
+      ((x, y), z))
+    (a' :: rest', r', res)
+
+/-- The same long-lived stack receives a sequence of entries. -/
+def runSeq : List Adapter → RecStream → List Ent → List Adapter × RecStream × List IoRes
+  | as, r, [] => (as, r, [])
+  | as, r, e :: es =>
+    let (as', r', res) := stackNext as r e
+    let (as'', r'', rs) := runSeq as' r' es
+    (as'', r'', res :: rs)
+
+def Adapter.toWrapper : Adapter → Wrapper
+  | .mergeGlobals g => .streamMergeGlobals g
+  | .globalDims d deny => .streamGlobalDims d deny
+  | .forceFlag f => .streamForceFlag f
+
+/-- the first `n` answers of a script (`Ok` once it is exhausted) -/
+def scriptResults : Nat → List IoRes → List IoRes
+  | 0, _ => []
+  | n + 1, s => s.headD .ok :: scriptResults n s.tail
+
 end Wrappers
